@@ -64,7 +64,7 @@ func c15Refusal(e *vsched.Exec, hook bool, vetoAt int, udp, tcpLike bool) {
 			return
 		}
 		// request + payload; the target answers; more payload
-		if err := writeTCPRequestTo(str, "t:80"); err != nil {
+		if err := c15WriteTCPRequestTo(str, "t:80"); err != nil {
 			e.Fail("request: %v", err)
 		}
 		_, _ = str.Write([]byte("GET / first payload"))
@@ -98,7 +98,7 @@ func c15Refusal(e *vsched.Exec, hook bool, vetoAt int, udp, tcpLike bool) {
 	r.shutdown(true)
 }
 
-func writeTCPRequestTo(w io.Writer, addr string) error {
+func c15WriteTCPRequestTo(w io.Writer, addr string) error {
 	// frame type 0x401, address length, address, padding length 0
 	b := []byte{0x44, 0x01, byte(len(addr))}
 	b = append(b, addr...)
